@@ -14,7 +14,9 @@ RULE = ("exhaustive token sequences (every sequence of <= L symbols of a 45-symb
         "20-symbol type-name alphabet, L=4 quick / 5 thorough; of 5 symbols over a 16-symbol alphabet on thorough) inserted in 6 "
         "contexts; every string of <= 3 (quick) / <= 4 (thorough) characters over the 21-character literal alphabet in 3 "
         "contexts; random token-level mutants of accepted programs (corpus, zoo and model-generated translation units); raw "
-        "character noise; odd file names. A case is non-trivial when its text has >= 2 tokens; "
+        "character noise; odd file names; single tokens / one-character runs of 4299..10000 (thorough: 100..300000) characters "
+        "(digits, identifiers, hex, floats, quoted strings, blanks) in 30 positions incl. #line, linemarker flags, #pragma, array "
+        "bounds, bit-field widths, labels. A case is non-trivial when its text has >= 2 tokens; "
         "distinct = distinct input texts (exhaustive part distinct by construction, random part by hash).")
 ASSUMPTIONS = ["CPython 3.12 sys.monitoring PY_START events are deterministic for a given input",
                "nesting depth of generated inputs <= 25, so RecursionError is never legitimate here",
@@ -59,7 +61,24 @@ def plan(tier, seed):
         specs.append({"name": f"mut-{i}", "mode": "mut", "n": nmut, "rseed": seed * 1000 + i})
     for i in range(4):
         specs.append({"name": f"noise-{i}", "mode": "noise", "n": nnoise, "rseed": seed * 1000 + 100 + i})
+    lens = [4299, 4300, 4301, 10000] if tier == "quick" else [100, 1000, 4299, 4300, 4301, 5000, 9999, 10000, 70000, 300000]
+    for i in range(2):
+        specs.append({"name": f"long-{i}", "mode": "long", "lens": lens, "shard": i, "nshards": 2})
     return specs
+
+
+# very long single tokens (and runs of one character) in every place where the lexer or parser converts, compares or
+# re-scans token text: CPython refuses int() of more than 4300 digits, regexes meet long runs, ...
+LONG_RUNS = [lambda n: "1" * n, lambda n: "9" * n, lambda n: "0" * n, lambda n: "a" * n, lambda n: "0x" + "f" * n,
+             lambda n: "0b" + "1" * n, lambda n: "1." + "0" * n, lambda n: "1e" + "9" * n, lambda n: "0" + "7" * n + "8",
+             lambda n: "'" + "a" * n + "'", lambda n: '"' + "a" * n + '"', lambda n: "L\"" + "\\n" * n + '"',
+             lambda n: "1" * n + "u", lambda n: "1" * n + "LL", lambda n: "_" * n, lambda n: " " * n + "1", lambda n: "\t" * n + "1"]
+LONG_CONTEXTS = ["#line X\nint x;\n", "# X \"f.c\"\nint x;\n", "#line 1 \"X\"\nint x;\n", "# 1 \"f.c\" X\nint x;\n", "# 1 \"f.c\" 1 X\nint x;\n",
+                 "#lineX\nint x;\n", "#X\nint x;\n", "int x = X;", "int a[X];", "struct s { int m : X; };", "enum e { A = X };",
+                 "#pragma X\nint x;\n", "#pragmaX\nint x;\n", "void f(void){ switch (x) { case X: ; } }", "int X;", "X x;",
+                 "void f(void) { X: ; goto X; }", "_Static_assert(X, \"m\");", "_Static_assert(1, X);", "_Alignas(X) int x;",
+                 "char *s = X;", "_Pragma(X) int x;", "int x = sizeof(X);", "int x = (X)1;", "struct X { int a; };",
+                 "int f(int X);", "int x = X X;", "int x[] = { [X] = 1 };", "int x = y.X;", "typedef int X; X v;"]
 
 
 def _h(s):
@@ -173,6 +192,22 @@ def run_shard(spec):
                 if len(res["samples"]) < 2 and i % 997 == 1:
                     res["samples"].append({"mutation": kind, "of": name, "input": text[:300],
                                            "outcome": o[0] if o[0] != "perr" else o[1]})
+        elif spec["mode"] == "long":
+            k = 0
+            for ctx in LONG_CONTEXTS:
+                for ri, run in enumerate(LONG_RUNS):
+                    for n in spec["lens"]:
+                        k += 1
+                        if k % spec["nshards"] != spec["shard"]:
+                            continue
+                        text = ctx.replace("X", run(n))
+                        o, v = judge(text, "long.c", steps, ntok=40)
+                        if v is not None:
+                            v["case"] = {"text": text[:200] + f"...<{len(text)} chars>", "filename": "long.c",
+                                         "long": {"context": ctx, "run": ri, "n": n}}
+                        record(o, v, text, "long.c", 0)
+                        res["nontrivial_distinct"] += 1
+            res["samples"].append({"long_context": LONG_CONTEXTS[0], "run": "1" * 12 + "...", "lengths": spec["lens"]})
         elif spec["mode"] == "noise":
             rnd = random.Random(spec["rseed"])
             for i in range(spec["n"]):
@@ -212,7 +247,9 @@ def replay(rec):
     steps.start()
     try:
         c = rec["case"]
-        o, v = judge(c["text"], c["filename"], steps)
+        if "long" in c:
+            c = dict(c, text=c["long"]["context"].replace("X", LONG_RUNS[c["long"]["run"]](c["long"]["n"])))
+        o, v = judge(c["text"], c["filename"], steps, ntok=40 if "long" in rec["case"] else None)
     finally:
         steps.stop()
     print("outcome:", o[:1] if o[0] == "ok" else o)
